@@ -55,7 +55,7 @@ CLAIMS = {
  "C10": ("Theorems into_correct (for every generated impl and value, x.into() is the field designated for T — sole field, else marked, else "
          "unique same-typed — through the marker's method / unchanged when already T / Into<T> otherwise), select_ok_iff / select_error_iff "
          "(the two selection loops = the designation function, refused exactly when not unique), items_targets (one impl per requested "
-         "target, no other). Tie: real macro + rustc with source/target types whose conversions are pairwise distinguishable.",
+         "target, no other). Tie: real macro + rustc with source/target types whose conversions are pairwise distinguishable. End to end (Props/E2E.lean): into_handler_end_to_end with intoSelect_select / intoLoop_markerLoop / intoSame_sameTypeLoop (the attribute layer's field selection for a target and the behavioural layer's are the same procedure, for every injective numbering of the normalised type strings): one item per requested target in the order of the sorted target map, and for each the generated impl returns the field designated by the reference semantics on the markers read from the fields' own attributes. Tie B6.",
          COMMON_NOTE + "types are compared by normalised token string as the code does (opaque ids in the model); the iteration order of the target map is an input of the model here and the subject of C16.",
          "Lean 4 theorem + differential correspondence on returned values"),
  "C08": ("Theorems default_correct (accepted => T::default() is the type-level expression, else the struct / marked-or-only variant / "
